@@ -510,14 +510,14 @@ func (v *Verifier) VerifyFunc(fc *FuncContract) (res *FuncResult) {
 		}
 	}
 	ex.bindDebugNames(post, nil)
-	for _, ca := range fc.CallAsserts {
-		if !ex.assertSeen[fmt.Sprintf("%d %s", ca.Ordinal, ca.Callee)] {
-			unsup("call clause: call %d of %s not found", ca.Ordinal, ca.Callee)
-		}
-	}
-	for _, cn := range fc.CallNames {
-		if !ex.callSeen[cn.Name] {
-			unsup("call clause: call %d of %s not found", cn.Ordinal, cn.Callee)
+	for ci, ca := range fc.CallAsserts {
+		if !ex.assertSeen[fmt.Sprintf("%d %s", ca.Ordinal, ca.Callee)] && !ca.Assume {
+			// the call site the assertion is attached to does not exist
+			lbl := ca.C.Label
+			if lbl == "" {
+				lbl = fmt.Sprintf("c%d", ci)
+			}
+			ex.addObl("assert", lbl, "true", "false", fn.Pos(), ca.C.Text+"  [call "+fmt.Sprint(ca.Ordinal)+" of "+ca.Callee+" not found]", false)
 		}
 	}
 	for i, rv := range results {
